@@ -51,7 +51,8 @@ def run(c):
         c.guard("edges_" + cfg, res.edges)
         rep = vlib.replay_edges(c, "weightcounter", edges, walks=c.pick(300, 3000), wlen=c.pick(12, 24), clause="weight-counter")
         # the same transitions on counters of DERIVED sets: a copy, a set rebuilt from the set's builder, a set decoded from its RLP encoding
-        for via in (("copy", "builder", "rlp") if (cfg.endswith("small") or not c.quick) else ("copy",)):
+        # (quick tier: on the graph with boundary weights only, 15 584 transitions; thorough: on both graphs)
+        for via in (("copy", "builder", "rlp") if (cfg.endswith("big") or not c.quick) else ()):
             drep = vlib.replay_edges(c, "weightcounter-" + via, edges, walks=c.pick(50, 500), wlen=c.pick(12, 24), clause="weight-counter-derived-set")
             derived[via] = derived.get(via, 0) + drep["applied"]
             applied += drep["applied"]
